@@ -1,0 +1,292 @@
+//! Verification hooks, compiled only with the `verif` cargo feature.
+//!
+//! Everything here is additive observability/control for external runtime
+//! monitors: a step-fuel limit, a story-seed setter, a virtual clock for
+//! `continue_async`, event counters, a state fingerprint and a content audit
+//! that exposes raw path/resolve observations. No oracle lives here.
+use std::{
+    collections::hash_map::DefaultHasher,
+    hash::{Hash, Hasher},
+    rc::Rc,
+};
+
+use crate::{
+    choice_point::ChoicePoint,
+    container::Container,
+    control_command::ControlCommand,
+    divert::Divert,
+    glue::Glue,
+    json::json_write,
+    native_function_call::NativeFunctionCall,
+    object::{Object, RTObject},
+    path::Path,
+    tag::Tag,
+    value::Value,
+    value_type::ValueType,
+    variable_assigment::VariableAssignment,
+    variable_reference::VariableReference,
+    void::Void,
+};
+
+/// Sentinel message of the error returned when the step fuel runs out.
+pub const FUEL_EXHAUSTED: &str = "VERIF_FUEL";
+
+#[derive(Default, Clone, Debug)]
+pub struct VerifCounters {
+    pub steps: u64,
+    pub snapshots_taken: u64,
+    pub snapshots_restored: u64,
+    pub snapshots_discarded: u64,
+    pub ext_calls: u64,
+    pub async_pauses: u64,
+}
+
+#[derive(Default)]
+pub(crate) struct VerifState {
+    pub step_fuel: Option<u64>,
+    pub async_step_budget: Option<u64>,
+    pub counters: VerifCounters,
+}
+
+/// One object of the content tree, as seen by the audit.
+#[derive(Clone, Debug)]
+pub struct AuditEntry {
+    pub id: usize,
+    pub parent: Option<usize>,
+    /// `Object::get_path(obj).to_string()`
+    pub path: String,
+    pub kind: &'static str,
+    /// Full description of the object (JSON form for leaves, name/flags for containers).
+    pub text: String,
+    /// true when the object is reachable only through its parent's named content
+    pub named_only: bool,
+}
+
+/// Result of parsing a path string and printing it again.
+#[derive(Clone, Debug)]
+pub struct PathRoundTrip {
+    pub printed: String,
+    pub is_relative: bool,
+    pub components: usize,
+    pub hash: u64,
+}
+
+pub struct VerifAudit {
+    pub entries: Vec<AuditEntry>,
+    objs: Vec<Rc<dyn RTObject>>,
+    root: Rc<Container>,
+}
+
+fn hash_path(p: &Path) -> u64 {
+    let mut h = DefaultHasher::new();
+    p.hash(&mut h);
+    h.finish()
+}
+
+fn kind_of(o: &dyn RTObject) -> &'static str {
+    let a = o.as_any();
+    if a.is::<Container>() {
+        "Container"
+    } else if a.is::<Value>() {
+        "Value"
+    } else if a.is::<ControlCommand>() {
+        "ControlCommand"
+    } else if a.is::<Divert>() {
+        "Divert"
+    } else if a.is::<ChoicePoint>() {
+        "ChoicePoint"
+    } else if a.is::<VariableReference>() {
+        "VariableReference"
+    } else if a.is::<VariableAssignment>() {
+        "VariableAssignment"
+    } else if a.is::<NativeFunctionCall>() {
+        "NativeFunctionCall"
+    } else if a.is::<Tag>() {
+        "Tag"
+    } else if a.is::<Glue>() {
+        "Glue"
+    } else if a.is::<Void>() {
+        "Void"
+    } else {
+        "Other"
+    }
+}
+
+fn describe(o: &Rc<dyn RTObject>) -> String {
+    if let Some(c) = o.as_any().downcast_ref::<Container>() {
+        let mut named: Vec<&String> = c.named_content.keys().collect();
+        named.sort();
+        return format!(
+            "name={:?} flags={} len={} named={:?}",
+            c.name,
+            c.get_count_flags(),
+            c.content.len(),
+            named
+        );
+    }
+    if let Some(v) = o.as_any().downcast_ref::<Value>() {
+        return match &v.value {
+            ValueType::Bool(b) => format!("bool:{b}"),
+            ValueType::Int(i) => format!("int:{i}"),
+            ValueType::Float(f) => format!("float:{:?}/{:08x}", f, f.to_bits()),
+            ValueType::String(s) => format!(
+                "str:{:?} ws={} nl={}",
+                s.string, s.is_inline_whitespace, s.is_newline
+            ),
+            ValueType::DivertTarget(p) => format!("target:{:?}", p.to_string()),
+            ValueType::VariablePointer(p) => {
+                format!("varptr:{:?}/{}", p.variable_name, p.context_index)
+            }
+            ValueType::List(l) => {
+                let mut items: Vec<String> = l
+                    .items
+                    .iter()
+                    .map(|(k, v)| format!("{}={}", k.get_full_name(), v))
+                    .collect();
+                items.sort();
+                let mut origins: Vec<String> = l
+                    .origins
+                    .borrow()
+                    .iter()
+                    .map(|d| d.get_name().to_string())
+                    .collect();
+                origins.sort();
+                format!("list:{items:?} origins={origins:?}")
+            }
+        };
+    }
+    if let Some(t) = o.as_any().downcast_ref::<Tag>() {
+        return format!("tag:{:?}", t.get_text());
+    }
+    match json_write::write_rtobject(o.clone()) {
+        Ok(v) => v.to_string(),
+        Err(e) => format!("<unwritable: {}>", e),
+    }
+}
+
+impl VerifAudit {
+    pub(crate) fn build_from(root: Rc<Container>) -> VerifAudit {
+        let mut audit = VerifAudit {
+            entries: Vec::new(),
+            objs: Vec::new(),
+            root: root.clone(),
+        };
+        audit.walk(root, None, false);
+        audit
+    }
+
+    fn walk(&mut self, o: Rc<dyn RTObject>, parent: Option<usize>, named_only: bool) {
+        let id = self.entries.len();
+        self.entries.push(AuditEntry {
+            id,
+            parent,
+            path: Object::get_path(o.as_ref()).to_string(),
+            kind: kind_of(o.as_ref()),
+            text: describe(&o),
+            named_only,
+        });
+        self.objs.push(o.clone());
+
+        if let Ok(c) = o.into_any().downcast::<Container>() {
+            for child in c.content.iter() {
+                self.walk(child.clone(), Some(id), false);
+            }
+            let mut named: Vec<(String, Rc<Container>)> =
+                c.get_named_only_content().into_iter().collect();
+            named.sort_by(|a, b| a.0.cmp(&b.0));
+            for (_, child) in named {
+                self.walk(child, Some(id), true);
+            }
+        }
+    }
+
+    fn id_of(&self, o: &Rc<dyn RTObject>) -> Option<usize> {
+        let a = Rc::as_ptr(o) as *const ();
+        self.objs
+            .iter()
+            .position(|x| std::ptr::eq(Rc::as_ptr(x) as *const (), a))
+    }
+
+    /// Resolves a path string from the root: (id of the object found, approximate flag).
+    pub fn resolve(&self, path: &str) -> (Option<usize>, bool) {
+        let p = Path::new_with_components_string(Some(path));
+        let r = self.root.content_at_path(&p, 0, -1);
+        (self.id_of(&r.obj), r.approximate)
+    }
+
+    /// The path the engine reports for object `id`, rebuilt component-wise
+    /// (not from cached text): (printed form, is_relative, hash).
+    pub fn own_path(&self, id: usize) -> PathRoundTrip {
+        let p = Object::get_path(self.objs[id].as_ref());
+        PathRoundTrip {
+            printed: p.to_string(),
+            is_relative: p.is_relative(),
+            components: p.len(),
+            hash: hash_path(&p),
+        }
+    }
+
+    /// Relative path from object `from` to object `to` as the engine computes it,
+    /// printed; plus what it resolves to from `from`.
+    pub fn relative(&self, from: usize, to: usize) -> (String, bool, Option<usize>, bool) {
+        let from_o = &self.objs[from];
+        let _ = Object::get_path(from_o.as_ref());
+        let global = Object::get_path(self.objs[to].as_ref());
+        let rel = Object::convert_path_to_relative(from_o, &global);
+        let r = Object::resolve_path(from_o.clone(), &rel);
+        (
+            rel.to_string(),
+            rel.is_relative(),
+            self.id_of(&r.obj),
+            r.approximate,
+        )
+    }
+
+    /// Parses a (possibly relative) path string and resolves it from object `from`.
+    pub fn resolve_from(&self, from: usize, path: &str) -> (Option<usize>, bool) {
+        let p = Path::new_with_components_string(Some(path));
+        let r = Object::resolve_path(self.objs[from].clone(), &p);
+        (self.id_of(&r.obj), r.approximate)
+    }
+
+    /// The compact form (shorter of relative/global) the engine would write for a
+    /// reference from `from` to `to`.
+    pub fn compact(&self, from: usize, to: usize) -> String {
+        let global = Object::get_path(self.objs[to].as_ref());
+        Object::compact_path_string(self.objs[from].clone(), &global)
+    }
+}
+
+/// Parse a path from text, print it again, and report its properties.
+pub fn path_roundtrip(text: &str) -> PathRoundTrip {
+    let p = Path::new_with_components_string(Some(text));
+    PathRoundTrip {
+        printed: p.to_string(),
+        is_relative: p.is_relative(),
+        components: p.len(),
+        hash: hash_path(&p),
+    }
+}
+
+/// Two paths parsed from text: (equal by `==`, hashes equal).
+pub fn path_eq_hash(a: &str, b: &str) -> (bool, bool) {
+    let pa = Path::new_with_components_string(Some(a));
+    let pb = Path::new_with_components_string(Some(b));
+    (pa == pb, hash_path(&pa) == hash_path(&pb))
+}
+
+/// A path parsed from text compared with the same path rebuilt from its
+/// components (so no cached text): (equal, hashes equal, printed forms equal).
+pub fn path_parsed_vs_rebuilt(text: &str) -> (bool, bool, bool) {
+    let parsed = Path::new_with_components_string(Some(text));
+    let mut comps = Vec::new();
+    for i in 0..parsed.len() {
+        comps.push(parsed.get_component(i).unwrap().clone());
+    }
+    let rebuilt = Path::new(&comps, parsed.is_relative());
+    (
+        parsed == rebuilt,
+        hash_path(&parsed) == hash_path(&rebuilt),
+        parsed.to_string() == rebuilt.to_string(),
+    )
+}
